@@ -413,8 +413,26 @@ def check(run) -> None:
                 if "quality_trace" in (a, b) and ({"fusion", "mmr"} & {a, b}):
                     continue      # shadow tracing requires quality.enabled = false, fusion/MMR require it true
                 k += 1
-                for j in range(3):
-                    add([a, b], excs[(k + 3 * j) % len(excs)], sorted(GARBAGE)[(k + j) % len(GARBAGE)] if "boot_garbage" in (a, b) else None)
+                for j in range(len(excs)):
+                    add([a, b], excs[(k + j) % len(excs)], sorted(GARBAGE)[(k + j) % len(GARBAGE)] if "boot_garbage" in (a, b) else None)
+                    if j < 3:
+                        cases.append(dict(cases[-1], world=1 + (k + j) % 2))
+        # triples of sites (one exception type and one world each, rotating)
+
+        def compatible(group):
+            g = set(group)
+            if {"boot_garbage", "boot_raise"} <= g:
+                return False
+            if "quality_trace" in g and ({"fusion", "mmr"} & g):
+                return False
+            return True
+        import itertools
+        for k3, tri in enumerate(itertools.combinations(names, 3)):
+            if not compatible(tri):
+                continue
+            add(list(tri), excs[k3 % len(excs)], sorted(GARBAGE)[k3 % len(GARBAGE)] if "boot_garbage" in tri else None)
+            if k3 % 3 == 0:
+                cases[-1]["world"] = 1 + (k3 // 3) % 2
     # attach the spec's predicted record sequence for vectors whose live set matches the model (all on)
     outs = pmap(run_case, cases, chunk=2)
     for c, fails in zip(cases, outs):
